@@ -214,6 +214,13 @@ def gen_response(salt, tag, method, sv):
     if sv == "h2" and body and r.random() < 0.25:
         trailers = [(b"x-rtrailer", tag)]
         feats.add("resp-trailers")
+    elif sv == "h2" and not nobody and r.random() < 0.2:
+        # gRPC-style answer: status 200, no content at all, the result travels in the trailers
+        status, body, framing = 200, b"", "none"
+        trailers = [(b"grpc-status", b"0"), (b"grpc-message", tag)][: r.choice([1, 2])]
+        feats.update({"resp-trailers", "resp-trailers-only"})
+        if r.random() < 0.4:
+            feats.add("resp-empty-data-frame")  # an empty DATA frame between the two header blocks
     feats.add(f"resp-{framing}")
     return {"status": status, "headers": headers, "setcookies": setcookies, "body": body, "framing": framing, "trailers": trailers, "nobody": nobody, "feats": feats, "adv": None,
             "declared_len": len(body) if not nobody else r.choice([0, 17])}
@@ -254,7 +261,8 @@ def h2_response_actions(rs):
     acts = [("headers", block, False)]
     half = len(body) // 2
     for part in ([body[:half], body[half:]] if half else [body]):
-        acts.append(("data", part, False))
+        if part or not rs["trailers"] or "resp-empty-data-frame" in rs["feats"]:
+            acts.append(("data", part, False))
     if rs["trailers"]:
         acts.append(("trailers", rs["trailers"]))
     else:
